@@ -167,6 +167,8 @@ Proof.
   intros HI HR HC H. unfold send_event in H.
   destruct (String.eqb ev Ev_Done).
   { apply ret_inv in H. destruct H as (H & _ & ->). inversion H; subst. simpl. auto. }
+  destruct (next_state t (m_cur m) ev).
+  2:{ apply ret_inv in H. destruct H as (H & _ & ->). inversion H; subst. simpl. auto. }
   destruct ctx as [c|]; cbn [ctx_ok_rel] in HC.
   - destruct HC as [HEinv HC].
     destruct (validate_ctx (m_data m) c) eqn:Hv; cbn [negb] in H.
@@ -175,7 +177,9 @@ Proof.
         refine (persist_then_loop_rule_rel _ _ lp _ _ _ _ _ HI1 HE1 _ H).
         cbn. eapply R_trans; eauto.
       * apply ret_inv in H. destruct H as (H & _ & ->). inversion H; subst. simpl. auto.
-    + exact (persist_then_loop_rule_rel _ _ lp _ _ _ _ _ HI HEinv HR H).
+    + unfold accepted_then_loop in H. destruct (next_state t (m_cur m) Ev_Invalid).
+      * exact (persist_then_loop_rule_rel _ _ lp _ _ _ _ _ HI HEinv HR H).
+      * apply ret_inv in H. destruct H as (H & _ & ->). inversion H; subst. simpl. auto.
   - exact (persist_then_loop_rule_rel _ _ lp _ _ _ _ _ HI HC HR H).
 Qed.
 
